@@ -4,8 +4,8 @@ PipelineComplete*/PipelineShapeOut* files: the closed forms of `afterPop`/`after
 event case-split tactic `pc_cases`, and the STATEMENTS (structures) of all invariants of the
 output side.  No heavy proofs here.
 -/
-import Osmium.Lemmas.PipelineOrder0
-import Osmium.Lemmas.PipelineShapeIn0
+import Osmium.Lemmas.PipelineOrder
+import Osmium.Lemmas.PipelineShapeIn
 
 set_option linter.unusedSimpArgs false
 set_option linter.unusedVariables false
